@@ -598,18 +598,25 @@ class ApiEpisodes(Batch):
 
 
 # ---------------------------------------------------------------------------
-# C03, program clause through the real assembler: one text, data cache off versus on
+# program clauses through the real assembler: one generated text under two configurations
+#   pair "dc"    (C03): data cache off versus on, same pipeline mode
+#   pair "ic"    (C11): instruction cache off versus on, same pipeline mode
+#   pair "modes" (C02): single-cycle versus five-stage with hazard detection, same caches
 
 
-def gen_onoff(seed):
+def gen_pair(seed, pair="dc"):
     r = R.stream(seed, "config")
-    dc = gen_cache(r, True, p_enable=1.0)
-    dc["enable"] = True
-    settings = {"isa": "riscv", "decoy": False, "hz": True, "dc": dc, "ic": gen_cache(r, False, p_enable=0.25),
+    dc = gen_cache(r, True, p_enable=1.0 if pair == "dc" else 0.4)
+    ic = gen_cache(r, False, p_enable=1.0 if pair == "ic" else 0.25)
+    if pair == "dc":
+        dc["enable"] = True
+    if pair == "ic":
+        ic["enable"] = True
+    settings = {"isa": "riscv", "decoy": False, "hz": True, "dc": dc, "ic": ic,
                 "mode": r.choice(["single_stage_pipeline", "five_stage_pipeline"])}
     r = R.stream(seed, "ops")
     text = gen_text(r, "riscv", p_bad=0.05)
-    return {"mode": "onoff", "settings": settings, "ops": [["load", text]], "cap": r.choice([300, 1500])}
+    return {"mode": "pair", "pair": pair, "settings": settings, "ops": [["load", text]], "cap": r.choice([300, 1500])}
 
 
 class _CrossingSpy:
@@ -636,31 +643,52 @@ class _CrossingSpy:
             setattr(mem, name, wrapped)
 
 
-def run_onoff(trace, prop):
+_PAIR = {
+    # pair: (property, name of side A, name of side B, what the violation kinds say)
+    "dc": ("C03", "off", "on", "with-cache"),
+    "ic": ("C11", "off", "on", "with-instruction-cache"),
+    "modes": ("C02", "single", "five", "between-modes"),
+}
+
+
+def run_pair(trace, prop):
     from architecture_simulator.gui import webgui
+    from ..pipesim.exec import summary
     from .subject import Settings
 
     install_clock()
     CLOCK.reset()
     res = Result()
     hs = Hasher()
+    pair = trace.get("pair", "dc")
+    P, A, B, tag = _PAIR[pair]
     st = copy.deepcopy(trace["settings"])
     text = trace["ops"][0][1] if trace["ops"] else ""
-    mode = st["mode"]
-    off_settings = copy.deepcopy(st)
-    off_settings["dc"]["enable"] = False
+    sa, sb = copy.deepcopy(st), copy.deepcopy(st)
+    if pair == "dc":
+        sa["dc"]["enable"] = False
+    elif pair == "ic":
+        sa["ic"]["enable"] = False
+    else:
+        sa["mode"], sb["mode"] = "single_stage_pipeline", "five_stage_pipeline"
+        low = text.lower()
+        if any(t in low for t in ("csr", "fence", "ebreak")):
+            res.discarded = "CSR / FENCE / EBREAK are outside the claim for five-stage mode"
+            return res
+    shown = {"dc": st["dc"], "ic": st["ic"], "mode": st["mode"] if pair != "modes" else "both"}
     sims = {}
     try:
-        for name, s_ in (("off", off_settings), ("on", st)):
+        for name, s_ in ((A, sa), (B, sb)):
             S = Settings(s_)
-            sims[name] = webgui.get_riscv_simulation(mode, True, S.cache_options("dc"), S.cache_options("ic"))
+            sims[name] = webgui.get_riscv_simulation(s_["mode"], True, S.cache_options("dc"), S.cache_options("ic"))
     except Exception as e:  # noqa: BLE001
         return _construction_failed(trace, prop, SutConstructionError(f"{type(e).__name__}: {e}"))
     spy = None
-    try:
-        spy = _CrossingSpy(sims["off"].state.memory)
-    except Exception:  # noqa: BLE001
-        pass
+    if pair == "dc":
+        try:
+            spy = _CrossingSpy(sims[A].state.memory)
+        except Exception:  # noqa: BLE001
+            pass
     out = {}
     for name, sim in sims.items():
         try:
@@ -668,10 +696,10 @@ def run_onoff(trace, prop):
             out[name] = ["loaded"]
         except Exception as e:  # noqa: BLE001
             out[name] = ["load-error", R.errname(e), getattr(e, "line_number", None)]
-    hs.add("load", out["off"], out["on"])
-    if out["off"] != out["on"]:
-        res.violate("C03", "load-differs-with-cache", expected=out["off"], got=out["on"], settings=st["dc"])
-    if out["off"][0] != "loaded" or res.violations:
+    hs.add("load", out[A], out[B])
+    if out[A] != out[B]:
+        res.violate(P, "load-differs-" + tag, expected=out[A], got=out[B], settings=shown)
+    if out[A][0] != "loaded" or res.violations:
         res.probes["text does not load (nothing to compare)"] += 1
         res.digest = hs.hexdigest()
         return res
@@ -680,9 +708,11 @@ def run_onoff(trace, prop):
     for name, sim in sims.items():
         k = 0
         err = None
+        # side B gets a generous cap: termination is compared, not the number of calls (a five-stage run needs up
+        # to three ticks per instruction plus the drain)
+        lim = cap if name == A else 6 * cap + 20
         try:
-            # the cached run gets a generous cap: termination is compared, not the number of calls
-            while not sim.is_done() and k < (cap if name == "off" else 4 * cap):
+            while not sim.is_done() and k < lim:
                 sim.step()
                 k += 1
             done = bool(sim.is_done())
@@ -692,77 +722,112 @@ def run_onoff(trace, prop):
         steps[name] = k
         out[name] = {"error": err, "done": done}
         res.sim["steps"] += k
-    hs.add("run", out["off"], out["on"], steps)
-    res.nontrivial = steps["off"] >= 3
+    hs.add("run", out[A], out[B], steps)
+    res.nontrivial = steps[A] >= 3
     res.sim["calls"] += 2
-    a, b = out["off"], out["on"]
+    a, b = out[A], out[B]
+    res.states.add(hash((pair, st["mode"], st["dc"]["enable"], st["dc"]["kind"], st["dc"]["ways"], st["dc"]["bb"],
+                         st["ic"]["enable"], st["ic"]["ways"], a["error"] is None)))
     if spy is not None and spy.crossed:
         res.probes["text performs a word-crossing access (cache on: must be rejected)"] += 1
         res.faults["F-access:word-crossing (program)"] += 1
         if b["error"] is None and a["error"] is None and a["done"]:
-            res.violate("C03", "crossing-access-not-rejected", expected="an error with the cache on", got=b, settings=st["dc"])
+            res.violate(P, "crossing-access-not-rejected", expected="an error with the cache on", got=b, settings=shown)
         res.digest = hs.hexdigest()
         return res
     if a["done"] is False:
         res.probes["text does not terminate within the step cap (nothing to compare)"] += 1
         res.digest = hs.hexdigest()
         return res
+    keys = ["regs", "output", "exit_code"]
+    if pair != "dc":
+        keys.append("mem")
     if (a["error"] is None) != (b["error"] is None):
-        res.violate("C03", "fault-differs-with-cache", expected=a, got=b, settings=st["dc"])
+        if b["done"] is False and a["error"] is not None:
+            res.hang = f"side {A} faulted after {steps[A]} steps, side {B} neither faulted nor finished within {steps[B]} steps"
+        else:
+            res.violate(P, "fault-differs-" + tag, expected=a, got=b, settings=shown)
     elif a["error"] is not None:
         res.faults["F-instr (run-time fault in the text)"] += 1
-        if None not in (a["error"][1], b["error"][1]) and a["error"][1] != b["error"][1]:
-            res.violate("C03", "fault-differs-with-cache", expected=a, got=b, settings=st["dc"])
+        if pair == "modes":
+            # C02: the same faulting instruction, with identical registers, memory and output at that point
+            if a["error"][1] != b["error"][1]:
+                res.violate(P, "fault-address", expected=a, got=b, settings=shown)
+            keys = ["regs", "mem", "output"]
+        elif None not in (a["error"][1], b["error"][1]) and a["error"][1] != b["error"][1]:
+            res.violate(P, "fault-differs-" + tag, expected=a, got=b, settings=shown)
     elif b["done"] is not True:
-        res.violate("C03", "termination-differs-with-cache", expected=a, got=b, steps=steps, settings=st["dc"])
-    if not res.violations:
-        for what in ("get_register_entries", "get_output", "get_exit_code"):
-            va = call_insp(sims["off"], "riscv", mode, what)
-            vb = call_insp(sims["on"], "riscv", mode, what)
-            hs.add(what, va)
-            if va != vb:
-                res.violate("C03", "result-differs-with-cache", what=what, expected=va, got=vb, settings=st["dc"], mode=mode)
+        if pair == "dc":
+            res.violate(P, "termination-differs-" + tag, expected=a, got=b, steps=steps, settings=shown)
+        else:
+            res.hang = f"side {A} finished after {steps[A]} steps, side {B} not done after {steps[B]} steps"
+    elif pair == "modes":
+        keys += ["instruction_count", "branch_count", "procedure_count"]
+    if not res.violations and not res.hang:
+        try:
+            va, vb = summary(sims[A]), summary(sims[B])
+        except Exception as e:  # noqa: BLE001
+            va, vb = {"summary-raised": R.errname(e)}, {}
+            keys = ["summary-raised"]
+        hs.add("summary", [va.get(k) for k in keys])
+        for k in keys:
+            if va.get(k) != vb.get(k):
+                x, y = va.get(k), vb.get(k)
+                if k == "regs":
+                    d = [(i, p_, q_) for i, (p_, q_) in enumerate(zip(x, y)) if p_ != q_][:4]
+                    x, y = [(i, p_) for i, p_, _ in d], [(i, q_) for i, _, q_ in d]
+                elif k == "mem":
+                    d = sorted(set(x.items()) ^ set(y.items()))[:6]
+                    x, y = [(k_, v_) for k_, v_ in d if x.get(k_) == v_], [(k_, v_) for k_, v_ in d if y.get(k_) == v_]
+                res.violate(P, ("fault-state-differs-" if a["error"] else "result-differs-") + tag, what=k, expected=x, got=y,
+                            settings=shown)
                 break
         else:
-            res.probes["assembled text: same registers, output and exit code with the data cache on"
-                       + (" (run-time fault)" if a["error"] else "")] += 1
+            res.probes[f"assembled text: same result {tag.replace('-', ' ')}" + (" (run-time fault)" if a["error"] else "")] += 1
             if ".data" in text:
-                res.probes["assembled text with an initialised data segment compared with and without the cache"] += 1
-    res.states.add(hash((mode, st["dc"]["kind"], st["dc"]["ways"], st["dc"]["bb"], a["error"] is None)))
+                res.probes[f"assembled text with an initialised data segment compared {tag.replace('-', ' ')}"] += 1
     res.digest = hs.hexdigest()
     return res
 
 
-class CacheOnOffTexts(Batch):
+class TextPairs(Batch):
     engine = "lifesim"
     per_run_timeout_s = 60.0
 
-    def __init__(self, name, runs_quick, runs_thorough):
+    def __init__(self, name, pair, runs_quick, runs_thorough):
         self.name = name
+        self.pair = pair
         self.runs_quick = runs_quick
         self.runs_thorough = runs_thorough
 
     def generate(self, seed):
-        return gen_onoff(seed)
+        return gen_pair(seed, self.pair)
 
     def execute(self, trace, prop):
-        return run_onoff(trace, prop)
+        return run_pair(trace, prop)
 
     def shrink(self, trace, prop, still_fails, budget: Budget):
         cur = _shrink_texts(trace, still_fails, budget, "ops")
-        for key, val in (("ib", 0), ("bb", 0), ("ways", 1), ("pen", 0), ("strat", "lru")):
-            if budget.spent():
-                break
-            if cur["settings"]["dc"].get(key) != val:
-                cand = copy.deepcopy(cur)
-                cand["settings"]["dc"][key] = val
-                budget.tick()
-                if still_fails(cand):
-                    cur = cand
+        for which in ("dc", "ic"):
+            for key, val in (("enable", False), ("ib", 0), ("bb", 0), ("ways", 1), ("pen", 0), ("strat", "lru")):
+                if budget.spent():
+                    break
+                if key == "enable" and which == cur.get("pair"):
+                    continue
+                if cur["settings"][which].get(key) != val:
+                    cand = copy.deepcopy(cur)
+                    cand["settings"][which][key] = val
+                    budget.tick()
+                    if still_fails(cand):
+                        cur = cand
         return cur
 
     def describe(self, trace):
-        return {"settings": trace["settings"], "text": trace["ops"][0][1][:600] if trace["ops"] else ""}
+        return {"pair": trace.get("pair"), "settings": trace["settings"], "text": trace["ops"][0][1][:600] if trace["ops"] else ""}
+
+
+def CacheOnOffTexts(name, runs_quick, runs_thorough):
+    return TextPairs(name, "dc", runs_quick, runs_thorough)
 
 
 # ---------------------------------------------------------------------------
